@@ -103,6 +103,7 @@ ASSUMPTIONS = [
     "PAA: a later column shorter than num_intervals (only the first column is validated by the code) is outside the property's domain and not sent to the model",
     "RandomIntervalFeatureExtractor: how the random intervals are drawn is not modelled; the fitted intervals are read back from the real object (or set by the harness) and the features of their slices are checked",
     "row transformers / adaptor are checked with harness-defined and sklearn transformers that act column-wise",
+    "cell / series dtype (float64, int64, int32 with integer-valued data, per-column mixed int/float; float32 for the value-moving transformers pad, truncate, tabularize, concatenate, interval / sliding-window segmenters) is varied on the real code for every transformer; the required values do not depend on it, so the model (over Rat, or Option Rat for padding where the fill value / values may be NaN) has no dtype. float32 input to the arithmetic transformers is not generated: their float32 rounding is outside exact arithmetic",
 ]
 OPS = {}
 
@@ -110,7 +111,7 @@ OPS = {}
 # ----------------------------------------------------------------------------- helpers
 def show_cell(vals):
     vals = list(vals)
-    return "e" if not vals else ",".join(show_rat(float(v)) for v in vals)
+    return "e" if not vals else ",".join(show_rat(None if v is None else float(v)) for v in vals)
 
 
 def show_panel(p):
@@ -139,17 +140,33 @@ def parse_table(s):
     return [] if s == "_" else [parse_cell(r) for r in s.split("|")]
 
 
-def build(panel, kind, t0=0, names=None):
-    """the container handed to the real code"""
+NP_DTYPE = {"f8": "float64", "f4": "float32", "i8": "int64", "i4": "int32"}
+# transformers that only move values around: float32 cells must come out exactly; the others do arithmetic,
+# which in float32 is outside "exact rational arithmetic" (ASSUMPTIONS)
+F4_OPS = ("pad", "trunc", "tab", "concat", "iseg", "slide")
+PANEL_OPS = ("pad", "trunc", "tab", "concat", "paa", "iseg", "slide", "interp", "rife", "rowprim", "rowser")
+SERIES_OPS = ("impute", "acf", "cos", "adapt")
+
+
+def col_dtype(dtype, j):
+    """numpy dtype of column j: "mix" alternates int64 / float64 columns"""
+    if dtype == "mix":
+        return "int64" if j % 2 == 0 else "float64"
+    return NP_DTYPE[dtype]
+
+
+def build(panel, kind, t0=0, names=None, dtype="f8"):
+    """the container handed to the real code; `dtype` is the dtype of the cells (integer dtypes are only
+    used with integer-valued data, float32 with values exactly representable in float32)"""
     if kind == "N":
-        return np.array(panel, dtype="float64")
+        return np.array(panel, dtype=col_dtype(dtype, 0))
     ncol = len(panel[0]) if panel else 0
     names = names or ["dim_%d" % j for j in range(ncol)]
     data = {}
     for j in range(ncol):
         col = []
         for inst in panel:
-            v = np.array(inst[j], dtype="float64")
+            v = np.array(inst[j], dtype=col_dtype(dtype, j))
             col.append(pd.Series(v, index=pd.RangeIndex(t0, t0 + len(v))) if kind == "S" else v)
         data[names[j]] = pd.Series(col, dtype=object)
     return pd.DataFrame(data) if ncol else pd.DataFrame(index=range(len(panel)))
@@ -257,9 +274,9 @@ def pad_real(c):
     from sktime.transformations.panel.padder import PaddingTransformer
 
     def f():
-        t = PaddingTransformer(pad_length=c["pad_length"], fill_value=c["fill"])
-        t.fit(build(c["xfit"], c["kind"], c.get("t0", 0)))
-        return show_panel(nested_out(t.transform(build(c["x"], c["kind"], c.get("t0", 0)))))
+        t = PaddingTransformer(pad_length=c["pad_length"], fill_value=NAN if c["fill"] is None else c["fill"])
+        t.fit(build(c["xfit"], c["kind"], c.get("t0", 0), dtype=c.get("dtype", "f8")))
+        return show_panel(nested_out(t.transform(build(c["x"], c["kind"], c.get("t0", 0), dtype=c.get("dtype", "f8")))))
     return guarded(f)
 
 
@@ -271,7 +288,8 @@ def pad_oracle(c, out):
     longest = max(len(s) for inst in x for s in inst)
     if longest > L:
         return []          # cannot be padded to L: the statement demands nothing
-    want = [[s + [Fr(c["fill"])] * (L - len(s)) for s in inst] for inst in x]
+    fill = None if c["fill"] is None else Fr(c["fill"])       # None = NaN
+    want = [[s + [fill] * (L - len(s)) for s in inst] for inst in x]
     if out.startswith("E:"):
         if c["kind"] == "A":
             return [("pad:array-cells-rejected", "valid nested DataFrame with ndarray cells rejected: " + out)]
@@ -284,6 +302,10 @@ def pad_oracle(c, out):
     if not same_panel(got, want):
         return [("pad:values", "got %s want %s" % (out, show_panel(want)))]
     return []
+
+
+# fill values: default, integer, negative, fractional, NaN (None)
+FILLS = [0.0, 0.0, 7.0, -1.0, -1.5, 0.25, 0.5, None, None]
 
 
 def pad_gen(tier, rng):
@@ -304,7 +326,7 @@ def pad_gen(tier, rng):
         if kind == "N" and not (is_rect(x) and is_rect(xfit)):
             kind = "S"
         cases.append({"op": "pad", "kind": kind, "pad_length": None if pl == "none" else m + pl,
-                      "fill": rng.choice([0.0, 0.0, -1.5, 7.0, 0.25]), "xfit": xfit, "x": x, "t0": rng.choice([0, 0, 4])})
+                      "fill": rng.choice(FILLS), "xfit": xfit, "x": x, "t0": rng.choice([0, 0, 4])})
     # structured random: larger
     for _ in range(180 if tier == "quick" else 3600):
         ni, nc = rng.randrange(1, 5), rng.randrange(1, 4)
@@ -318,7 +340,8 @@ def pad_gen(tier, rng):
         kind = rng.choice(["S", "S", "S", "A", "N"])
         if kind == "N" and not (is_rect(x) and is_rect(xfit)):
             kind = "S"
-        cases.append({"op": "pad", "kind": kind, "pad_length": pl, "fill": dyadic(rng, -8, 8, 2), "xfit": xfit, "x": x, "t0": 0})
+        cases.append({"op": "pad", "kind": kind, "pad_length": pl, "fill": rng.choice([dyadic(rng, -8, 8, 2), dyadic(rng, -8, 8, 2), rng.choice(FILLS)]),
+                      "xfit": xfit, "x": x, "t0": 0})
     return cases
 
 
@@ -336,8 +359,8 @@ def trunc_real(c):
 
     def f():
         t = TruncationTransformer(lower=c["lower"], upper=c["upper"])
-        t.fit(build(c["xfit"], c["kind"], c.get("t0", 0)))
-        return show_panel(nested_out(t.transform(build(c["x"], c["kind"], c.get("t0", 0)))))
+        t.fit(build(c["xfit"], c["kind"], c.get("t0", 0), dtype=c.get("dtype", "f8")))
+        return show_panel(nested_out(t.transform(build(c["x"], c["kind"], c.get("t0", 0), dtype=c.get("dtype", "f8")))))
     return guarded(f)
 
 
@@ -417,7 +440,7 @@ def tab_real(c):
     from sktime.transformations.panel.compose import ColumnConcatenator
 
     def f():
-        X = build(c["x"], c["kind"], c.get("t0", 0))
+        X = build(c["x"], c["kind"], c.get("t0", 0), dtype=c.get("dtype", "f8"))
         if c["op"] == "tab":
             r = Tabularizer().fit(X).transform(X)
             return show_table(np.asarray(r, dtype="float64").tolist())
@@ -502,7 +525,7 @@ def paa_real(c):
     from sktime.transformations.panel.dictionary_based._paa import PAA
 
     def f():
-        X = build(c["x"], c["kind"], c.get("t0", 0))
+        X = build(c["x"], c["kind"], c.get("t0", 0), dtype=c.get("dtype", "f8"))
         return show_panel(nested_out(PAA(num_intervals=c["k"]).fit(X).transform(X)))
     return guarded(f)
 
@@ -595,8 +618,8 @@ def iseg_real(c):
         iv = c["intervals"]
         if isinstance(iv, list) and c.get("as_array", True):
             iv = np.array(iv, dtype="int64")
-        t = IntervalSegmenter(intervals=iv).fit(build(c["xfit"], c["kind"], c.get("t0", 0)))
-        return show_panel(nested_out(t.transform(build(c["x"], c["kind"], c.get("t0", 0)))))
+        t = IntervalSegmenter(intervals=iv).fit(build(c["xfit"], c["kind"], c.get("t0", 0), dtype=c.get("dtype", "f8")))
+        return show_panel(nested_out(t.transform(build(c["x"], c["kind"], c.get("t0", 0), dtype=c.get("dtype", "f8")))))
     return guarded(f)
 
 
@@ -702,7 +725,7 @@ def slide_real(c):
     from sktime.transformations.panel.segment import SlidingWindowSegmenter
 
     def f():
-        X = build(c["x"], c["kind"], c.get("t0", 0))
+        X = build(c["x"], c["kind"], c.get("t0", 0), dtype=c.get("dtype", "f8"))
         return show_panel(nested_out(SlidingWindowSegmenter(window_length=c["w"]).fit(X).transform(X)))
     return guarded(f)
 
@@ -762,7 +785,7 @@ def interp_real(c):
     from sktime.transformations.panel.interpolate import TSInterpolator
 
     def f():
-        X = build(c["x"], c["kind"], c.get("t0", 0))
+        X = build(c["x"], c["kind"], c.get("t0", 0), dtype=c.get("dtype", "f8"))
         return show_panel(nested_out(TSInterpolator(c["length"]).fit(X).transform(X)))
     return guarded(f)
 
@@ -848,7 +871,9 @@ def impute_line(c):
     return "C14 impute %s %s %s %s" % (m, onone(c["value"]), onone(c["mv"]), show_oseries(c["z"]))
 
 
-def _series(z, i0=0):
+def _series(z, i0=0, dtype="f8"):
+    if dtype in ("i8", "i4") and all(v is not None for v in z):
+        return pd.Series([int(v) for v in z], index=pd.RangeIndex(i0, i0 + len(z)), dtype=NP_DTYPE[dtype])
     return pd.Series([NAN if v is None else float(v) for v in z], index=pd.RangeIndex(i0, i0 + len(z)), dtype="float64")
 
 
@@ -856,7 +881,7 @@ def impute_real(c):
     from sktime.transformations.series.impute import Imputer
 
     def f():
-        z = _series(c["z"], c.get("i0", 0))
+        z = _series(c["z"], c.get("i0", 0), c.get("dtype", "f8"))
         zt = Imputer(method=c["method"], value=c["value"], missing_values=c["mv"]).fit_transform(z)
         pre = "" if list(zt.index) == list(z.index) else "INDEX-CHANGED:"
         return pre + show_oseries(zt.tolist())
@@ -1008,7 +1033,7 @@ def rife_real(c):
     from sktime.transformations.panel.summarize import RandomIntervalFeatureExtractor
 
     def f():
-        X = build(c["x"], c["kind"], c.get("t0", 0))
+        X = build(c["x"], c["kind"], c.get("t0", 0), dtype=c.get("dtype", "f8"))
         t = RandomIntervalFeatureExtractor(n_intervals=c["n_intervals"], min_length=c.get("min_length"),
                                            max_length=c.get("max_length"), features=_features(c["feats"]),
                                            random_state=c["seed"])
@@ -1184,7 +1209,7 @@ def row_real(c):
     from sktime.transformations.series.summarize import MeanTransformer
 
     def f():
-        X = build(c["x"], c["kind"], c.get("t0", 0))
+        X = build(c["x"], c["kind"], c.get("t0", 0), dtype=c.get("dtype", "f8"))
         if c["op"] == "rowprim":
             r = SeriesToPrimitivesRowTransformer(MeanTransformer()).fit(X).transform(X)
             return show_table(np.asarray(r, dtype="float64").tolist())
@@ -1269,7 +1294,7 @@ def acf_real(c):
     from sktime.transformations.series.acf import AutoCorrelationTransformer
 
     def f():
-        z = _series(c["z"], c.get("i0", 0))
+        z = _series(c["z"], c.get("i0", 0), c.get("dtype", "f8"))
         r = AutoCorrelationTransformer(adjusted=c["adjusted"], n_lags=c["n_lags"]).fit_transform(z)
         return show_oseries(r.tolist())
     return guarded(f)
@@ -1333,7 +1358,7 @@ def cos_real(c):
     from sktime.transformations.series.cos import CosineTransformer
 
     def f():
-        z = _series(c["z"], c.get("i0", 0))
+        z = _series(c["z"], c.get("i0", 0), c.get("dtype", "f8"))
         zt = CosineTransformer().fit_transform(z)
         pre = "" if list(zt.index) == list(z.index) else "INDEX-CHANGED:"
         return pre + show_cell(zt.tolist())
@@ -1363,10 +1388,10 @@ def cos_gen(tier, rng):
 OPS["cos"] = dict(line=cos_line, real=cos_real, oracle=cos_oracle, gen=cos_gen)
 
 
-def _frame(cols, i0):
+def _frame(cols, i0, dtype="f8"):
     if len(cols) == 1:
-        return _series(cols[0], i0)
-    return pd.DataFrame({"c%d" % j: np.array(col, dtype="float64") for j, col in enumerate(cols)},
+        return _series(cols[0], i0, dtype)
+    return pd.DataFrame({"c%d" % j: np.array(col, dtype=col_dtype(dtype, j)) for j, col in enumerate(cols)},
                         index=pd.RangeIndex(i0, i0 + len(cols[0])))
 
 
@@ -1383,7 +1408,7 @@ def adapt_real(c):
     from sktime.transformations.series.adapt import TabularToSeriesAdaptor
 
     def f():
-        zf, z = _frame(c["zfit"], c.get("i0", 0)), _frame(c["z"], c.get("i0", 0) + 2)
+        zf, z = _frame(c["zfit"], c.get("i0", 0), c.get("dtype", "f8")), _frame(c["z"], c.get("i0", 0) + 2, c.get("dtype", "f8"))
         zt = TabularToSeriesAdaptor(_sk(c["t"])).fit(zf).transform(z)
         pre = "" if list(zt.index) == list(z.index) else "INDEX-CHANGED:"
         cols = [zt.tolist()] if isinstance(zt, pd.Series) else [zt.iloc[:, j].tolist() for j in range(zt.shape[1])]
@@ -1435,7 +1460,7 @@ OPS["adapt"] = dict(line=adapt_line, real=adapt_real, oracle=adapt_oracle, gen=a
 # ----------------------------------------------------------------------------- runner interface
 RULE = ("per transformer: fixed-order exhaustive small scope over shapes / lengths / integer parameters (quick: seed-rotated "
         "stratified slice, thorough: all) + structured random larger panels + malformed configurations; values are random "
-        "dyadic rationals. distinct by driver line; non-trivial = the real code returned a result (no error) with at least one value")
+        "dyadic rationals; cell dtype varied over float64 / int64 / int32 / float32 / mixed columns, pad fill values over integer, negative, fractional, NaN. distinct by driver line; non-trivial = the real code returned a result (no error) with at least one value")
 LEVEL_TEXT = "Lean 4 theorems (model = independent spec, lengths, order) about executable models of the closed-form transformers; models tied to /repo by a differential correspondence check and a property oracle on every run."
 LEVEL_NOTE = "Trusted: Lean kernel; the models' faithfulness to the extent the correspondence exercises it; harness + compat layer; numpy/pandas/scipy/statsmodels/sklearn as black boxes."
 TECHNIQUE = "Lean 4 machine-checked proof over executable models + differential correspondence with the real code + oracle from the property text"
@@ -1445,10 +1470,49 @@ def is_exhaustive(tier):
     return tier == "thorough"
 
 
+def _to_int_values(v):
+    if isinstance(v, list):
+        return [_to_int_values(u) for u in v]
+    if isinstance(v, float):
+        return float(int(round(v)))
+    return v
+
+
+def vary_dtype(rng, c):
+    """cell / series dtype is a dimension of EVERY transformer's input space: float64 (most cases), int64, int32
+    (integer-valued data: counts, codes), float32 (value-moving transformers only), per-column mixed int/float.
+    The values a transformer must return do not depend on the dtype."""
+    op = c["op"]
+    r = rng.random()
+    if r < 0.5:
+        dtype = "f8"
+    elif r < 0.72:
+        dtype = "i8"
+    elif r < 0.82:
+        dtype = "i4"
+    elif r < 0.92:
+        dtype = "mix" if op in PANEL_OPS or op == "adapt" else "i8"
+    else:
+        dtype = "f4" if op in F4_OPS else "f8"
+    if op == "impute" and any(v is None for v in c["z"]):
+        dtype = "f8"                       # NaN needs a float series
+    if dtype in ("i8", "i4", "mix"):
+        same = "x" in c and c.get("xfit") is c["x"]
+        for key in ("x", "xfit", "z", "zfit"):
+            if key in c:
+                c[key] = _to_int_values(c[key])
+        if same:
+            c["xfit"] = c["x"]
+        if op == "impute" and isinstance(c.get("mv"), float) and c["mv"] != int(c["mv"]):
+            c["mv"] = float(int(c["mv"]))
+    c["dtype"] = dtype
+    return c
+
+
 def gen_cases(tier, rng):
     cases = []
     for op in OPS:
-        cases.extend(OPS[op]["gen"](tier, rng))
+        cases.extend(vary_dtype(rng, c) for c in OPS[op]["gen"](tier, rng))
     return cases
 
 
@@ -1472,6 +1536,9 @@ def features(c, out):
     f = ["op=" + c["op"]]
     if "kind" in c:
         f.append(c["op"] + ":kind=" + c["kind"])
+    f.append(c["op"] + ":dtype=" + c.get("dtype", "f8"))
+    if c["op"] == "pad":
+        f.append("pad:fill=" + ("nan" if c["fill"] is None else "int" if c["fill"] == int(c["fill"]) else "frac"))
     f.append(c["op"] + (":" + out if out.startswith("E:") else ":ok"))
     if "x" in c and c["x"] and isinstance(c["x"][0], list):
         f.append("%s:inst=%d,cols=%d" % (c["op"], len(c["x"]), len(c["x"][0])))
@@ -1480,6 +1547,8 @@ def features(c, out):
 
 def shrink(c):
     """smaller cases: drop instances, drop columns, shorten cells, simplify numbers"""
+    if c.get("dtype") in ("mix", "i4"):
+        yield dict(c, dtype="i8")
     for key in ("x", "xfit"):
         p = c.get(key)
         if not isinstance(p, list) or not p or not isinstance(p[0], list) or not p[0] or not isinstance(p[0][0], list):
